@@ -278,6 +278,41 @@ def replay_tiling(p):
     return _res(bad, {'n': n, 'chunk': None if c_none else c, 'ranges': w.calls[:6]})
 
 
+def replay_tiling_nonpos(p):
+    """File level: n rows written with input_chunk_size=c (c <= 0): the write is refused, or the file holds the n rows."""
+    _quiet()
+    n, c = p['args'][:2]
+    n = min(n, 2000)
+    a, b, x = make_cols(n, 2, 7, '<', '<', 3)
+    from dliswriter import DLISFile
+    df = DLISFile()
+    lf = df.add_logical_file()
+    lf.add_origin('O', file_set_number=1, creation_time='2020/01/01 00:00:00')
+    ca = lf.add_channel('A', data=a)
+    cb = lf.add_channel('B', data=b)
+    lf.add_frame('FR', channels=(ca, cb))
+    path = fresh_tmp()
+    try:
+        try:
+            df.write(path, input_chunk_size=c, output_chunk_size=65536)
+        except Exception as e:
+            return _res('', {'n': n, 'chunk': c, 'refused': f'{type(e).__name__}: {e}'[:200]})
+        with open(path, 'rb') as f:
+            data = f.read()
+    finally:
+        try:
+            os.remove(path)
+        except OSError:
+            pass
+    try:
+        frames, _c = decode_frames(data)
+        got = len(list(frames.values())[0]['rows']) if frames else 0
+    except strict.StrictError as e:
+        return _res(f'strict reader: {e}')
+    bad = '' if got == n else f'{n} rows written with input_chunk_size={c}: accepted, and the file holds {got} frame data records'
+    return _res(bad, {'n': n, 'chunk': c, 'records': got})
+
+
 def replay_fdata_body(p):
     _quiet()
     ob = p.get('obligation', '')
